@@ -505,3 +505,159 @@ def r12_2(ctx, rr):
         if nm.endswith("_unchecked") or nm in ("from_raw_parts", "map_high_bits", "select_hinted", "select_zero_hinted", "rank_hinted", "add_ptr"):
             rr.instances += 1
             rr.check(b.unsafe, "%s:unsafe-fn" % short_fn(b.key), "%s has an unchecked precondition by name/contract but is not an `unsafe fn`: safe callers could reach out-of-bounds accesses" % b.key, b.span)
+
+
+# ---------------------------------------------------------------------------------------------
+# exactness: a checked wrapper rejects (panics / returns None / takes the clamped exit) only when the
+# argument really is outside the domain -- a guard that is too strong changes documented answers.
+
+def rejecting_exits(F, b, is_exit):
+    out = []
+
+    def on_node(W, n, K):
+        if W.debug_depth:
+            return
+        if is_exit(W, n):
+            out.append((n, K.copy(), W))
+    Walker(F, b, on_node=on_node).run()
+    return out
+
+
+def is_none_ctor(F, n):
+    return n.get("k") == "Path" and n.get("res") == "def" and n.get("name") == "None" and "Ctor" in n.get("dk", "")
+
+
+@rule("R12.4", props=["C01", "C02", "C03", "C04", "C05", "C06", "C12"], floor=14, title="checked wrappers reject exactly the out-of-domain arguments (no over-strong guard)")
+def r12_4(ctx, rr):
+    F = ctx.F()
+
+    def run(path, exit_kind, reasons_fn, min_exits=1):
+        b = F.one(path)
+        P = {p["name"]: ("var", p["name"], p["id"]) for p in b.params if p.get("k") == "PBind"}
+        reasons = reasons_fn(P)
+
+        def is_exit(W, n):
+            if exit_kind == "panic":
+                return is_panic_call(F, n)
+            if exit_kind == "none":
+                return is_none_ctor(F, n)
+            if exit_kind.startswith("call:"):
+                return cname(F, n) == exit_kind[5:]
+            return False
+        exits = rejecting_exits(F, b, is_exit)
+        if len(exits) < min_exits:
+            raise AnchorMissing("%s: expected at least %d rejecting exit(s) of kind %s, found %d" % (b.key, min_exits, exit_kind, len(exits)))
+        for n, K, W in exits:
+            rr.instances += 1
+            ok = any(goal_holds(K, g) for g in reasons)
+            key = "%s:rejects-only-out-of-domain" % short_fn(b.key)
+            rr.ob(ok, key=key, sample={"fn": b.key, "exit": show(F, n)[:80], "established": K.show()[:5], "admissible_reasons": [goal_show(g) for g in reasons]})
+            if not ok:
+                rr.violate(key, "%s rejects its argument at `%s` although none of the documented out-of-domain conditions (%s) is established there (established: %s): the guard is stronger than the domain" % (
+                    b.key, show(F, n)[:80], "; ".join(goal_show(g) for g in reasons), "; ".join(K.show()[:6]) or "nothing"), F.loc(n))
+
+    def lens(r):
+        return len_candidates(r)
+
+    run(r"^traits::rank_sel::Rank::rank$", "call:NumBits::num_ones", lambda P: [("any", [atom_le(L, P["pos"]) for L in lens(P["self"])])])
+    run(r"^traits::rank_sel::Select::select$", "none", lambda P: [atom_le(("call", "NumBits::num_ones", (P["self"],)), P["rank"])])
+    run(r"^traits::rank_sel::SelectZero::select_zero$", "none", lambda P: [atom_le(("call", "NumBits::num_zeros", (P["self"],)), P["rank"])])
+    run(r"^traits::indexed_dict::IndexedSeq::get$", "panic", lambda P: [("any", [atom_le(L, P["index"]) for L in lens(P["self"])])])
+    run(r"^traits::bit_field_slice::BitFieldSlice::get$", "panic", lambda P: [("any", [atom_le(L, P["index"]) for L in lens(P["self"])])])
+    run(r"^traits::bit_field_slice::AtomicBitFieldSlice::get_atomic$", "panic", lambda P: [("any", [atom_le(L, P["index"]) for L in lens(P["self"])])])
+    for path in (r"^bits::bit_vec::BitVec::<B>::get$", r"^bits::bit_vec::BitVec::<B>::set$", r"^bits::bit_vec::AtomicBitVec::<B>::get$", r"^bits::bit_vec::AtomicBitVec::<B>::set$", r"^bits::bit_vec::AtomicBitVec::<B>::swap$"):
+        run(path, "panic", lambda P: [("any", [atom_le(L, P["index"]) for L in lens(P["self"])])])
+
+    def set_reasons(P):
+        out = [("any", [atom_le(L, P["index"]) for L in lens(P["self"])])]
+        out.append(("valuefit", P["value"]))
+        return out
+    for path in (r"^traits::bit_field_slice::BitFieldSliceMut::set$", r"^traits::bit_field_slice::AtomicBitFieldSlice::set_atomic$",
+                 r"^<bits::bit_field_vec::BitFieldVec<W, B> as traits::bit_field_slice::BitFieldSliceMut<W>>::set$",
+                 r"^<bits::bit_field_vec::AtomicBitFieldVec<W, T> as traits::bit_field_slice::AtomicBitFieldSlice<W>>::set_atomic$"):
+        run(path, "panic", set_reasons, min_exits=2)
+    run(r"^bits::bit_field_vec::BitFieldVec::<W>::push$", "panic", lambda P: [("valuefit", P["value"])])
+    run(r"^bits::bit_field_vec::BitFieldVec::<W>::resize$", "panic", lambda P: [("valuefit", P["value"])])
+    run(r"^dict::elias_fano::EliasFanoBuilder::push$", "panic", lambda P: [
+        atom_le(("field", P["self"], "n"), ("field", P["self"], "count")),
+        atom_le(("field", P["self"], "u"), P["value"], True),
+        atom_le(P["value"], ("field", P["self"], "last_value"), True)], min_exits=3)
+    def index_of_reasons(P):
+        val = None
+        for name, t in P.items():
+            if name == "value":
+                val = t
+        return [("some-var-above", "u"), ("scan-exhausted", None), ("scanned-past", None)]
+    run(r"^<dict::elias_fano::EliasFano<H, L> as traits::indexed_dict::IndexedDict>::index_of$", "none", index_of_reasons, min_exits=3)
+    # Succ / Pred: the rejecting condition is exactly `is_empty() || value OP boundary element`
+    for path, op_strict, last in ((r"^traits::indexed_dict::Succ::succ$", True, True), (r"^traits::indexed_dict::Succ::succ_strict$", False, True),
+                                  (r"^traits::indexed_dict::Pred::pred$", True, False), (r"^traits::indexed_dict::Pred::pred_strict$", False, False)):
+        b = F.one(path)
+        T = Termizer(F, b)
+        s = ("var", "self", b.params[0]["id"])
+        v = ("var", b.params[1]["name"], b.params[1]["id"])
+        ifs = [n for n in walk(b.body) if n.get("k") == "If"]
+        ok = False
+        found = "no `if is_empty() || ...` test"
+        for n in ifs:
+            c = n["c"]
+            if c.get("k") == "Binary" and c["op"] == "||":
+                la = cond_atoms(T, c["l"], True)
+                ra = cond_atoms(T, c["r"], True)
+                if last:
+                    bound = ("call", "IndexedSeq::get", (s, mk_op("-", ("call", "IndexedSeq::len", (s,)), ("int", 1))))
+                    want = [atom_le(bound, v, op_strict)]
+                else:
+                    bound = ("call", "IndexedSeq::get", (s, ("int", 0)))
+                    want = [atom_le(v, bound, op_strict)]
+                found = "%s || %s" % ([ashow(a) for a in la], [ashow(a) for a in ra])
+                if la == [("b", ("call", "IndexedSeq::is_empty", (s,)), True)] and ra == want:
+                    ok = True
+        rr.instances += 1
+        rr.check(ok, "%s:rejects-only-out-of-domain" % short_fn(b.key), "%s must return None exactly when the structure is empty or the value is %s the %s element; found %s" % (
+            b.key, ("above" if last else "below") + ("" if op_strict else " or equal to"), "last" if last else "first", found), b.span)
+
+
+_old_goal_holds = goal_holds
+
+
+def goal_holds(K, goal):  # noqa: F811
+    if goal[0] == "valuefit":
+        v = goal[1]
+        for a in K.atoms:
+            if a[0] == "ne" and ((a[1][0] == "op" and a[1][1] == "&" and v in (a[1][2], a[1][3]) and a[2] == v) or (a[2][0] == "op" and a[2][1] == "&" and v in (a[2][2], a[2][3]) and a[1] == v)) and a[3] == 0:
+                return True
+        return False
+    if goal[0] == "some-var-above":
+        # `self.<field> < x` for the (borrowed copy of the) queried value x
+        for a in K.atoms:
+            if a[0] == "le" and a[3] <= -1 and a[1][0] == "field" and a[1][2] == goal[1] and a[2][0] in ("var",):
+                return True
+        return False
+    if goal[0] == "scan-exhausted":
+        for a in K.atoms:
+            if a[0] == "le" and a[1][0] == "call" and a[1][1] == "len" and mentions(a[2], lambda x: x[0] == "var"):
+                return True
+        return False
+    if goal[0] == "scanned-past":
+        # value < decoded element: some atom `x < (high << l | low)`
+        for a in K.atoms:
+            if a[0] == "le" and a[3] <= -1 and a[1][0] == "var" and mentions(a[2], lambda x: x[0] == "op" and x[1] == "|"):
+                return True
+        return False
+    return _old_goal_holds(K, goal)
+
+
+_old_goal_show = goal_show
+
+
+def goal_show(goal):  # noqa: F811
+    if goal[0] == "valuefit":
+        return "value & mask != value"
+    if goal[0] == "some-var-above":
+        return "self.%s < value" % goal[1]
+    if goal[0] == "scan-exhausted":
+        return "word index >= number of words of the high bits"
+    if goal[0] == "scanned-past":
+        return "value < decoded element"
+    return _old_goal_show(goal)
